@@ -70,6 +70,10 @@ pub struct Case {
 	/// the sound's own start time (None: immediate)
 	#[serde(default)]
 	pub start: Option<At>,
+	/// streaming only: the decoder only just keeps up, and delivers nothing at all during
+	/// callbacks [from, from + len): the sound starves (silence), its life cycle must not
+	#[serde(default)]
+	pub stall: Option<(usize, usize)>,
 }
 
 fn gen_tw(rng: &mut Rng, unit: f64) -> Tw {
@@ -160,6 +164,7 @@ fn gen_case(seed: u64, tier: Tier, systematic: Option<u64>) -> Case {
 			2 => Some(At::Clock(rng.below(5))),
 			_ => None,
 		},
+		stall: if streaming && finite_len.is_none() && rng.chance(0.3) { Some((rng.usize_below(n_chunks), rng.urange(1, 12))) } else { None },
 	}
 }
 
@@ -553,7 +558,19 @@ pub fn run_case(case: &Case) -> CaseResult {
 			cmd_iter.next();
 		}
 		for d in &decoders {
-			let _ = sim.step(*d, 40_000);
+			match case.stall {
+				None => {
+					let _ = sim.step(*d, 40_000);
+				}
+				Some((from, len)) => {
+					if ci >= from && ci < from + len {
+						res.hit("callbacks_with_stalled_decoder");
+					} else {
+						// only just in time: what this callback needs, plus the interpolation window
+						let _ = sim.step(*d, (*chunk as f64 * case.rate).ceil() as u64 + 6);
+					}
+				}
+			}
 		}
 		let before_early = early.m;
 		let before_late = late.m;
@@ -655,7 +672,9 @@ pub fn run_case(case: &Case) -> CaseResult {
 				break;
 			}
 			frozen_for += 1;
-			if let (Some(lp), true) = (last_pos, frozen_for >= 2) {
+			// (a starving streaming sound reports the position of the last frame it saw and
+			// corrects it when data arrives again: not judged in the stalled-decoder cases)
+			if let (Some(lp), true) = (last_pos, frozen_for >= 2 && case.stall.is_none()) {
 				if pos != lp {
 					res.fail(Violation::new("silence", "position-advanced-while-not-advancing", format!("callback {ci}: position moved from {lp} to {pos} while {:?}", early.m.state())));
 					break;
@@ -698,7 +717,8 @@ pub fn run_case(case: &Case) -> CaseResult {
 		if early.never_started || late.never_started {
 			known_fade = None;
 		}
-		if case.finite_len.is_none() && surely_started {
+		// (a starving sound is silent whatever its gain: the envelope is only read off fed sounds)
+		if case.finite_len.is_none() && surely_started && case.stall.is_none() {
 			if let Some((t0, tw, down)) = known_fade {
 				// the gain follows the fade: between the curve one callback early and one late
 				let slack = max_cb + 2.0 * dt + if tw.delay > 0.0 { max_cb } else { 0.0 };
